@@ -844,9 +844,13 @@ impl<'a, F: Float, K: 'a + Permutable<F>> SolverState<'a, F, K> {
         };
 
         // put back the solution
-        let mut alpha: Vec<F> = (0..self.ntotal())
-            .map(|i| self.alpha[self.active_set[i]].val())
-            .collect();
+        // position `i` of the solver state holds the variable of sample `active_set[i]`
+        let mut alpha: Vec<F> = vec![F::zero(); self.ntotal()];
+        let mut sample_target: Vec<F> = vec![F::zero(); self.ntotal()];
+        for i in 0..self.ntotal() {
+            alpha[self.active_set[i]] = self.alpha[i].val();
+            sample_target[self.active_set[i]] = self.target(i);
+        }
 
         // If we are solving a regresssion problem the number of alpha values
         // computed by the solver are 2*(#samples). The final weights of each sample
@@ -876,7 +880,7 @@ impl<'a, F: Float, K: 'a + Permutable<F>> SolverState<'a, F, K> {
             let mut tmp = Array1::zeros(self.dataset.len_of(Axis(1)));
 
             for (i, elm) in self.dataset.outer_iter().enumerate() {
-                tmp.scaled_add(self.target(i) * alpha[i], &elm);
+                tmp.scaled_add(sample_target[i] * alpha[i], &elm);
             }
 
             SeparatingHyperplane::Linear(tmp)
